@@ -34,6 +34,10 @@ pub enum Basis {
     Affine,
     /// 0 : a vanishing basis function
     Zero,
+    /// exp(-a_p x) cos(a_q x) + a_r x exp(-a_s x) : a function of FOUR parameters (argument order p, q, r, s)
+    Mix4(usize, usize, usize, usize),
+    /// exp(-8 (x - j/2)^2) : a parameter-free bump (models with many basis functions)
+    Bump(usize),
 }
 
 impl Basis {
@@ -54,12 +58,15 @@ impl Basis {
             "sq" => Basis::Sq(ix(1)),
             "affine" => Basis::Affine,
             "zero" => Basis::Zero,
+            "mix4" => Basis::Mix4(ix(1), ix(2), ix(3), ix(4)),
+            "bump" => Basis::Bump(ix(1)),
             _ => panic!("unknown basis {name}"),
         }
     }
     pub fn deps(&self) -> Vec<usize> {
         match *self {
-            Basis::Const | Basis::Lin | Basis::Affine | Basis::Zero => vec![],
+            Basis::Const | Basis::Lin | Basis::Affine | Basis::Zero | Basis::Bump(_) => vec![],
+            Basis::Mix4(p, q, r, t) => vec![p, q, r, t],
             Basis::ExpDecay(p) | Basis::ExpRate(p) | Basis::Rat(p) | Basis::Cos(p) | Basis::Sq(p) => {
                 vec![p]
             }
@@ -83,6 +90,11 @@ impl Basis {
             Basis::ExpCos(_, _) => Float::exp(-a[0] * x) * Float::cos(a[1] * x),
             Basis::Poly(_, _) => a[0] * x + a[1] * x * x + a[0] * a[1],
             Basis::Sq(_) => (a[0] + x) * (a[0] + x),
+            Basis::Mix4(..) => Float::exp(-a[0] * x) * Float::cos(a[1] * x) + a[2] * x * Float::exp(-a[3] * x),
+            Basis::Bump(j) => {
+                let c = T::of_f64(0.5 * j as f64);
+                Float::exp(-T::of_f64(8.0) * (x - c) * (x - c))
+            }
         }
     }
     /// derivative with respect to the i-th own parameter (position in deps())
@@ -106,6 +118,10 @@ impl Basis {
             (Basis::Poly(_, _), 0) => x + a[1],
             (Basis::Poly(_, _), 1) => x * x + a[0],
             (Basis::Sq(_), 0) => two * (a[0] + x),
+            (Basis::Mix4(..), 0) => -x * Float::exp(-a[0] * x) * Float::cos(a[1] * x),
+            (Basis::Mix4(..), 1) => -x * Float::exp(-a[0] * x) * Float::sin(a[1] * x),
+            (Basis::Mix4(..), 2) => x * Float::exp(-a[3] * x),
+            (Basis::Mix4(..), 3) => -a[2] * x * x * Float::exp(-a[3] * x),
             _ => panic!("no such derivative"),
         }
     }
@@ -331,6 +347,19 @@ pub fn build_separable<T: HScalar>(spec: &ModelSpec<T>) -> SeparableModel<T> {
                     .partial_deriv(names[deps[1]].clone(), move |x: &DVector<T>, a: T, c: T| {
                         x.map(|xi| quant(b2.dvalue(1, xi, &[a, c]), q))
                     });
+            }
+            4 => {
+                let nm: Vec<String> = deps.iter().map(|&d| names[d].clone()).collect();
+                let b0 = bs.clone();
+                b = b.function(nm.clone(), move |x: &DVector<T>, a: T, c: T, d: T, e: T| {
+                    x.map(|xi| quant(b0.value(xi, &[a, c, d, e]), q))
+                });
+                for pos in 0..4 {
+                    let bk = bs.clone();
+                    b = b.partial_deriv(nm[pos].clone(), move |x: &DVector<T>, a: T, c: T, d: T, e: T| {
+                        x.map(|xi| quant(bk.dvalue(pos, xi, &[a, c, d, e]), q))
+                    });
+                }
             }
             _ => unreachable!(),
         }
